@@ -179,10 +179,12 @@ def make_state(typ, nv, nh, na, saturated=False):
 class Ctx:
     """One run of a session."""
 
-    def __init__(self, sess):
+    def __init__(self, sess, which="a"):
         self.sess = sess
+        self.which = which
         self.state = None
         self.saved = None
+        self.held, self.held0 = {}, {}
         # callback objects a script builds at its top, BEFORE it seeds (whatever they do at construction must not
         # tie later seeded runs to the state the generator had then)
         from qucumber.callbacks import ObservableEvaluator
@@ -306,6 +308,17 @@ def _failing(ctx, f, r, space, samples):
     return "no-exception"
 
 
+def _held(ctx, rows):
+    """Start states the caller keeps in ONE tensor for the whole session and hands to every call that does not ask to
+    overwrite them.  "The same sequence of operations": in run b every such call gets an equal tensor of its own
+    instead of the same object - a call that writes into a start tensor it was told to leave alone makes the two
+    runs differ from the second use on."""
+    if rows not in ctx.held0:
+        ctx.held0[rows] = torch.tensor(ctx.sess.bits(random.Random("held-%s-%d" % (ctx.sess.sid, rows)), rows), dtype=torch.double)
+        ctx.held[rows] = ctx.held0[rows].clone()
+    return ctx.held0[rows].clone() if ctx.which == "b" else ctx.held[rows]
+
+
 def execute(ctx, op, seed_of=None):
     """Perform one abstract operation through the public API; returns the result."""
     sess, o = ctx.sess, op["o"]
@@ -319,7 +332,7 @@ def execute(ctx, op, seed_of=None):
         if form == 0:
             qucumber.set_random_seed(sd, cpu=True, gpu=False, quiet=True)
         elif form == 1:
-            qucumber.set_random_seed(sd, True, True, True)
+            qucumber.set_random_seed(sd, True, r.random() < 0.5, True)      # (seed, cpu, gpu, quiet) by position
         elif form == 2:
             qucumber.set_random_seed(sd, gpu=True, quiet=True)
         else:
@@ -338,6 +351,8 @@ def execute(ctx, op, seed_of=None):
             # the chains start from the enumeration of all basis states the library hands out, advanced in place
             # (what the library hands out is the caller's to overwrite; nobody else may be looking at it)
             init, ow = s.generate_hilbert_space(), True
+        elif op["init"] and not ow and r.random() < 0.6:
+            init = _held(ctx, max(op["n"], 1))
         if o == "Sample":
             return s.sample(k=op["k"], num_samples=op["n"], initial_state=init, overwrite=ow)
         obs = r.choice([SigmaZ(), SigmaX(), NeighbourInteraction(periodic_bcs=True)])
@@ -348,6 +363,8 @@ def execute(ctx, op, seed_of=None):
         num_samples = chains * T - (r.randint(0, chains - 1) if T > 1 else 0)
         init = torch.tensor(sess.bits(r, chains), dtype=torch.double) if op["init"] else None
         kw = dict(num_chains=chains, burn_in=op["k"], steps=op["n"], initial_state=init, overwrite=r.random() < 0.5)
+        if op["init"] and not kw["overwrite"] and r.random() < 0.6:
+            kw["initial_state"] = _held(ctx, chains)
         if op["f"] == "sys":
             return System(SigmaZ(), SigmaX()).statistics(s, num_samples, **kw)
         return r.choice([SigmaZ(), SigmaY(), NeighbourInteraction(periodic_bcs=True)]).statistics(s, num_samples, **kw)
@@ -356,6 +373,8 @@ def execute(ctx, op, seed_of=None):
     if o == "BatchGrads":
         pos = torch.tensor(sess.bits(r, 4), dtype=torch.double)
         neg = torch.tensor(sess.bits(r, 3), dtype=torch.double)
+        if r.random() < 0.5:
+            neg = _held(ctx, 3)                # the chains of the negative phase start from rows the caller keeps
         if sess.typ == "positive":
             return s.compute_batch_gradients(op["k"], pos, neg)
         return s.compute_batch_gradients(op["k"], pos, neg, _basis_rows(sess, r, 4))
@@ -431,7 +450,7 @@ def run_once(sess, hist, which, garbage_seed=0, hooks=None):
     sources perturbed between every pair of operations; 'c' every seed replaced.
     Returns one observation per event: dict(pv, rng, out, stop) of hex tokens."""
     g = random.Random("garbage-%s-%s-%s" % (garbage_seed, sess.sid, which))
-    ctx = Ctx(sess)
+    ctx = Ctx(sess, which)
     np.random.seed(12345)
     random.seed(12345)
     torch.manual_seed(4242)
